@@ -5,11 +5,12 @@ EXTENDS StateLedger
 
 CONSTANTS MaxH, MaxOps, MaxSnaps
 
-CONSTANTS Slots, StVals, MaxFaults
+CONSTANTS Slots, StVals, MaxFaults, EmptyVals
 U == [ slots |-> Slots,
        acct  |-> [sl \in Slots |-> IF sl = "a2/s/k" THEN "a2" ELSE "a1"],
        kind  |-> [sl \in Slots |-> IF sl = "a1/bal" THEN "bal" ELSE "st"] ]
-ValsOf(sl) == IF U.kind[sl] = "bal" THEN {"0", "1"} ELSE StVals
+\* one storage slot may also be written with the empty (non-nil) byte string
+ValsOf(sl) == IF U.kind[sl] = "bal" THEN {"0", "1"} ELSE IF sl = "a1/s/k" THEN StVals \cup EmptyVals ELSE StVals
 PrefixK == {"a1/s/k", "a1/s/k1"} \cap Slots     \* slots of account a1 with key prefix "k"
 
 VARIABLES s, g, ops, snapc, hist, faults
@@ -21,7 +22,7 @@ Init == s = SInit(U) /\ g = GInit(U) /\ ops = 0 /\ snapc = 0 /\ hist = <<>> /\ f
 Write == \E sl \in U.slots : \E v \in ValsOf(sl) : \E j \in BOOLEAN :
   /\ (U.kind[sl] = "bal" => j)          \* only storage has a non-journaled write (AddState)
   /\ ~g.flushed
-  /\ s' = SWrite(U, s, sl, v, j) /\ g' = GWrite(g, sl, v, j)
+  /\ s' = SWrite(U, s, sl, v, j) /\ g' = GWrite(g, sl, Norm(v), j)
   /\ ops' = ops + 1 /\ UNCHANGED snapc /\ hist' = Append(hist, <<"W", sl, v, j>>)
 Read == \E sl \in U.slots :
   /\ s' = SRead(U, s, sl).s /\ UNCHANGED <<g, snapc>> /\ ops' = ops + 1 /\ hist' = Append(hist, <<"R", sl>>)
@@ -50,9 +51,13 @@ Spec == Init /\ [][Next]_vars
 
 \* every possible read, at every reachable state, returns the latest write
 Inv_C13_ReadLatest == \A sl \in U.slots : C13_ReadLatest(g, sl, SRead(U, s, sl).v)
-Inv_C13_QueryExact == g.flushed \/ (PrefixK \cap g.free # {}) \/ BagOfFn(SQuery(U, s, PrefixK)) = BagOfFn(LiveVals(g, PrefixK))
+Inv_C13_QueryExact == g.flushed \/ (PrefixK \cap g.free # {}) \/ BagOfFn([x \in DOMAIN SQuery(U, s, PrefixK) |-> Norm(SQuery(U, s, PrefixK)[x])]) = BagOfFn(LiveVals(g, PrefixK))
 Inv_C12_RollbackGate == \A t \in 0..MaxH : ~g.flushed => ((SRollbackErr(s, t) = "ok") <=> GRollbackOK(g, t))
 \* the database itself equals the truth at the committed head whenever no block is open
-Inv_C12_DbAtHead == (g.head > 0 /\ ~g.flushed) => \A sl \in U.slots \ g.at[g.head].free : s.db[sl] = g.at[g.head].cur[sl]
+Inv_C12_DbAtHead == (g.head > 0 /\ ~g.flushed) => \A sl \in U.slots \ g.at[g.head].free : Norm(s.db[sl]) = g.at[g.head].cur[sl]
+\* C13: the found flag of a read must not depend on where it is served from: whenever nothing is uncommitted, stopping
+\* and reopening the ledger (cold caches) must not change it
+Inv_C13_StableExistence == (~g.flushed /\ \A sl \in U.slots : s.dirty[sl] = Absent) =>
+                             \A sl \in U.slots : U.kind[sl] = "st" => SFound(U, s, sl) = SFound(U, SReopen(U, s), sl)
 Inv_WindowAgree == s.maxJ = g.head
 =============================================================================
